@@ -751,6 +751,13 @@ func (g *gen) shadowQualifier() {
 		{"range-key-variable", "", "for fmt := range map[PR]bool{{}: true} {\n\tCALL\n}"},
 		{"for-init-variable", "", "for fmt, i := mkpr@@(), 0; i < 1; i++ {\n\tCALL\n}"},
 		{"if-init-variable", "", "if fmt := mkpr@@(); true {\n\tCALL\n}"},
+		// the init statement's scope covers the whole if-else chain
+		{"if-init-variable-used-in-else", "", "if fmt := mkpr@@(); false {\n} else {\n\tCALL\n}"},
+		{"if-init-variable-used-in-else-if", "", "if fmt := mkpr@@(); false {\n} else if true {\n\tCALL\n}"},
+		{"if-init-variable-used-in-else-of-else-if", "", "if fmt := mkpr@@(); false {\n} else if false {\n} else {\n\tCALL\n}"},
+		{"switch-init-variable-used-in-second-case", "", "switch fmt := mkpr@@(); {\ncase false:\ncase true:\n\tCALL\n}"},
+		{"switch-init-variable-used-in-default", "", "switch fmt := mkpr@@(); {\ncase false:\ndefault:\n\tCALL\n}"},
+		{"for-init-variable-used-in-post-and-body", "", "for fmt, i := mkpr@@(), 0; i < 1; i++ {\n\tif i == 0 {\n\t\tCALL\n\t}\n}"},
 		{"switch-init-variable", "", "switch fmt := mkpr@@(); {\ncase true:\n\tCALL\n}"},
 		{"type-switch-binding", "", "var v any = PR{}\nswitch fmt := v.(type) {\ncase PR:\n\tCALL\n}"},
 		{"select-receive-variable", "", "ch := make(chan PR, 1)\nch <- PR{}\nselect {\ncase fmt := <-ch:\n\tCALL\n}"},
